@@ -90,7 +90,12 @@ PROPS = {
         # exact are part of the cone (their lemmas are C05's invariant)
         + fns([F + "_is_string_in_refs_file", F + "_find_object", F + "_store_hashstore_refs_files",
                F + "tag_object", F + "_write_refs_file", F + "_verify_hashstore_references",
-               F + "_read_small_file_content"]),
+               F + "_read_small_file_content"])
+        # the roll-back helpers remove reference files: a reference list that disappears while a pid
+        # still names the object leaves the object unprotected
+        + fns([F + "_untag_object", F + "_remove_pid_and_handle_cid_refs_deletion",
+               F + "_mark_pid_refs_file_for_deletion", F + "_validate_and_check_cid_lock"],
+              r"post/(outcome|fs)"),
         "lemmas": ["inv/store_object", "inv/tag_object", "inv/delete_object",
                    "inv/delete_if_invalid_object", "inv/store_metadata", "inv/delete_metadata",
                    "frame/delete_object", "frame/delete_if_invalid_object"],
